@@ -15,7 +15,7 @@ from .c03 import contents_stores, is_attr, same_object
 from . import targets
 from .. import uscan
 
-UNIT_CATS = ('convert-from-unit', 'sum-mix', 'add-units', 'to-storage', 'from-storage', 'qstr', 'qstr-format', 'storage-label', 'round-then-scale',
+UNIT_CATS = ('convert-from-unit', 'sum-mix', 'add-units', 'to-storage', 'from-storage', 'qstr', 'qstr-format', 'truncating-division', 'storage-label', 'round-then-scale',
              'store-volume', 'store-contents', 'compare-units', 'std-format')
 
 
